@@ -59,6 +59,24 @@ Definition exposed (k : mclass) (b : xml) : list (str * list (option str)) :=
   | _ => []
   end.
 
+(* RunningOrder.stories (of a roCreate / roReplace message object) evaluates the programme start and the
+   offset table: the exception that raises, if any - then neither the IDs nor the XML are exposed *)
+Definition exposed_err (o : oracles) (k : mclass) (b : xml) : option exn :=
+  match k with
+  | RunningOrder | RunningOrderReplace => ro_stories_err o b
+  | ItemMoveMultiple => match imm_target b with None => Some PyIndexError | Some _ => None end   (* no itemID at all *)
+  | StorySend => match convert_story_send b with None => Some PyAttributeError | Some _ => None end (* no storyBody *)
+  | _ => None
+  end.
+
+(* ... and the same for the XML of the carried elements (only the classes whose carried elements come from the
+   accessor that raises) *)
+Definition exposed_xml_err (o : oracles) (k : mclass) (b : xml) : option exn :=
+  match k with
+  | RunningOrder | RunningOrderReplace | StorySend => exposed_err o k b
+  | _ => None
+  end.
+
 (* the elements a message carries, exposed as objects with their XML *)
 Definition exposed_xml (k : mclass) (b : xml) : list xml :=
   match k with
@@ -164,11 +182,27 @@ Definition inspect (k : mclass) (b : xml) : exn + list str :=
     inr (line "IN STORY: " (ea_target_id t_storyID b) :: lines "  MOVE ITEM: " (ea_first_source_ids t_itemID b))
   end.
 
+(* RunningOrder.inspect() walks self.stories, which evaluates the programme start and the offset table first:
+   an unparseable roEdStart, a non-numeric duration or a story without storyID make it raise before a line is
+   printed *)
+Definition inspect_o (o : oracles) (k : mclass) (b : xml) : exn + list str :=
+  match k with
+  | RunningOrder =>
+    match find t_roSlug (kids_of b) with
+    | None => inspect k b
+    | Some _ => match ro_stories_err o b with Some e => inl e | None => inspect k b end
+    end
+  | _ => inspect k b
+  end.
+
 (* what inspect() has already printed when it raises (only EAItemSwap prints before the
    failing tuple unpacking) *)
 Definition inspect_partial (k : mclass) (b : xml) : list str :=
   match k with
   | EAItemSwap => [line "IN STORY: " (ea_target_id t_storyID b)]
+  | RunningOrder =>
+    (* "RO: <slug>" is printed before self.stories is evaluated *)
+    match find t_roSlug (kids_of b) with Some e => [line "RO: " (text_of e)] | None => [] end
   | _ => []
   end.
 
